@@ -341,3 +341,17 @@ package f3
 //@     before[a_hit_returns_the_cached_cid] res(Get, 1, 1) && arg(0) == res(Get, 1, 0) && arg(1) == nil
 //@   at return 4
 //@     before[a_miss_returns_the_computed_cid] arg(0) == res(MakePowerTableCID, 1, 0) && arg(1) == nil
+
+// The slot a message occupies in the equivocation filter is (sender, round, phase) — the instance is the filter's own.
+//@ func (*equivocationFilter).formKey
+//@   property C12
+//@   modifies nothing
+//@   inlined
+//@   ensures[slot_is_sender_round_phase] result.Sender == m.Sender && result.Round == m.Vote.Round && result.Phase == m.Vote.Phase
+
+// The epoch a WAL entry is filed (and purged) under is the instance of the message it holds.
+//@ func (*walEntry).WALEpoch
+//@   property C11 C12
+//@   modifies nothing
+//@   inlined
+//@   ensures[filed_under_the_instance_of_its_message] result == we.Message.Vote.Instance
